@@ -12,7 +12,7 @@ from rv.props import common as C
 
 LEVEL = "exploration"
 RULE = ("random operation scripts (length <= 40) over a pool of live arrays with operations new / add (positive and negative index) / copy / sort / add_empty / remove / concatenate / combine / "
-        "numbins / numitems / sums, items with zero, repeated and dyadic values: numbers, names with a value table, and plain objects tracked by identity; plus bounded-exhaustive scripts: every sequence of <= 4 operations over a 9-operation alphabet "
+        "numbins / numitems / sums, items with zero, repeated and dyadic values: numbers, names with a value table, plain objects tracked by identity, and (name, value) tuples; plus bounded-exhaustive scripts: every sequence of <= 4 operations over a 9-operation alphabet "
         "(thorough: <= 5) for both managers; non-trivial = script contains a copy followed by a mutation of either side and a sort of an array with distinct sums; distinct on the script")
 ASSUMPTIONS = ["arrays handed to add_empty / remove / concatenate are used only through the returned array afterwards (the discipline stated in the property)",
                "combine is never called with the same array on both sides (no algorithm does)"]
@@ -56,12 +56,17 @@ def run_script(script, ctx=None):
         real = objs.__getitem__
         keyf = lambda o: key_of.get(id(o), "<foreign object %r>" % (o,))
         valueof = lambda o: o.value
+    elif script.get("tuples"):
+        # items are (name, value) tuples - sequences, which array-based shortcuts may unpack; the model refers to them by name
+        real = lambda k: (k, vmap[k])
+        keyf = lambda o: o[0] if (isinstance(o, tuple) and len(o) == 2 and o[0] in vmap and o[1] == vmap[o[0]]) else "<not the item that was added: %r>" % (o,)
+        valueof = lambda o: o[1]
     else:
         real = lambda k: k
         keyf = lambda o: o
         valueof = (lambda x: vmap[x]) if script.get("named") else (lambda x: x)
     binner = (A.prtpy.BinnerKeepingContents if contents else A.prtpy.BinnerKeepingSums)(valueof)
-    val = lambda x: F(vmap[x]) if (script.get("named") or objects) else F(x)
+    val = lambda x: F(vmap[x]) if (script.get("named") or objects or script.get("tuples")) else F(x)
     live = {}      # id -> real array
     shadow = {}    # id -> list of lists of items
     nxt = 0
@@ -180,7 +185,7 @@ def judge(script, ctx):
 
 def gen_script(rng, manager, maxlen=40):
     """Generate a script from the shadow model alone (tracks sizes, contents, liveness)."""
-    kind = rng.choice(["numbers", "names", "objects"])
+    kind = rng.choice(["numbers", "names", "objects", "tuples"])
     named = kind != "numbers"
     vmap = {}
     pool_vals = [0, 0, 1, 2, 3, 3, 5, 8, 13, 0.5, 2.25, 20, 2 ** 40, 10 ** 12 + 1]   # all sums stay exact in float64 (<= 40 integer bits + 2 fractional bits)
@@ -248,7 +253,7 @@ def gen_script(rng, manager, maxlen=40):
             if sizes[a] == 0:
                 continue
             ops.append(["numitems", a, rng.randrange(sizes[a])])
-    return {"manager": manager, "named": kind == "names", "objects": kind == "objects", "vmap": vmap, "ops": ops, "nontrivial": copied_then_mutated and sorted_distinct, "cls": "random/" + kind}
+    return {"manager": manager, "named": kind == "names", "objects": kind == "objects", "tuples": kind == "tuples", "vmap": vmap, "ops": ops, "nontrivial": copied_then_mutated and sorted_distinct, "cls": "random/" + kind}
 
 
 def exhaustive_scripts(manager, maxlen, shard, nshards):
